@@ -72,6 +72,18 @@ def main():
         tb = traceback.format_exc()
         print(tb)
         ctx.tie_broken("harness-exception", tb)
+    # A broken obligation / correspondence WITHOUT any failing input of the property may be a
+    # transient of the machine (a worker or coqc killed by its time limit under load, two checks
+    # building shared Coq files at the same moment).  A break caused by the code is deterministic,
+    # so the whole check is run once more from scratch and only the second outcome is reported.
+    if (ctx.broken and os.environ.get("VERIF_RETRY") != "1"
+            and not any(common.load_known().get((pid, v["key"]), {}).get("status") != "known" for v in ctx.violations)):
+        print("[%s] obligation/correspondence did not check and no failing input was found: running the check once more "
+              "to rule out a transient (first attempt: %s)" % (pid, "; ".join(str(b.get("name")) for b in ctx.broken[:4])), flush=True)
+        wd.cancel()
+        os.environ["VERIF_RETRY"] = "1"
+        sys.stdout.flush()
+        os.execv(sys.executable, [sys.executable, "-u"] + sys.argv)
     sys.exit(ctx.finish())
 
 
